@@ -78,10 +78,18 @@ bool ExecutorThread::Stop() {
 }
 
 void ExecutorThread::RunRemaining() {
-  MutexLocker locker(&m_mutex);
-  while (!m_callback_queue.empty()) {
-    BaseCallback0<void>* cb = m_callback_queue.front();
-    m_callback_queue.pop();
+  while (true) {
+    BaseCallback0<void>* cb = NULL;
+    {
+      MutexLocker locker(&m_mutex);
+      if (m_callback_queue.empty()) {
+        return;
+      }
+      cb = m_callback_queue.front();
+      m_callback_queue.pop();
+    }
+    // Run the callback without holding the mutex, as ConsumerThread does: a
+    // callback may call Execute() again, which takes m_mutex.
     cb->Run();
   }
 }
